@@ -4,7 +4,10 @@
 // drawn.  Before the base exists every signal gets a distinct sentinel sigaction (handler pointer, sa_flags, sa_mask).
 // Ops: new(+add) / add / del / free / raise x1..5 / turn until quiescent / single loop pass / fork+event_reinit (the
 // child runs the rest of the history and reports through a pipe; the parent then runs the rest too) / early base free.
-// Callbacks may raise their own or another signal, delete themselves or another event, or add another event.
+// Callbacks may raise their own or another signal, delete themselves or another event, add another event, or call
+// event_base_loopbreak; the action is either the same on every call or follows a per-event script indexed by the number of
+// calls since the event was created (run once or cyclically), so an activation of N coalesced deliveries can be cut short at
+// its k-th call and the SAME struct event can behave differently after it is added again.
 // Oracle (per process): see props/C07.json.
 // Preconditions respected: one base per process owns signals; events are deleted/freed before the base except for
 // harness-owned (event_assign) storage which may stay added across event_base_free; event_reinit is the first
@@ -42,10 +45,12 @@ void (*const SI[NSIG_])(int, siginfo_t *, void *) = {si0, si1, si2, si3, si4};
 
 enum { SK_HANDLER = 0, SK_SIGINFO = 1, SK_IGN = 2, SK_DFL = 3 };   // SK_DFL only for WINCH/URG (default action: ignore)
 
-struct MSig { int n_added = 0; int D_batch = 0; int kind = 0; struct sigaction want; struct sigaction seen; bool multi = false; };
+struct MSig { int n_added = 0; int D_batch = 0; int after_disp = 0 /* deliveries (event added) since the loop last polled */; int kind = 0; struct sigaction want; struct sigaction seen; bool multi = false; };
 struct MEv {
   struct event *ev = nullptr; struct event store; bool heap = false;
   int sig = 0; bool persist = true; int prio = 0; int act = 0, arg = 0;
+  int nscript = 0; int script[4] = {0, 0, 0, 0}; bool cyc = false;   // nscript > 0: call j (1-based, since creation) does script[j-1]; afterwards nothing, or the script again when cyc
+  bool cut = false;             // the last activation was cut short (delete / loop break) with calls still pending
   bool added = false; bool in_cb = false;
   int act_remaining = 0;        // calls still to come from the activation whose callback ran last (library's ev_ncalls)
   long total_calls = 0;         // callbacks since creation
@@ -59,6 +64,8 @@ struct World {
   int backend = 0, mech = 0, nprio = 1;
   bool in_child = false, forked = false; int res_fd = -1;
   bool eintr = false; int cb_depth = 0; int cb_raise_budget = 8;
+  bool broke = false, dispatched = false;   // per event_base_loop call: a callback asked for loopbreak / the backend was polled
+  bool saw_varying = false, saw_break = false, saw_cut = false, saw_call_after_cut = false, saw_idle_no_events = false;
   uint32_t callbacks = 0, lib_deliveries = 0;
   bool saw_partial = false, saw_raise_in_cb = false, saw_del_in_cb = false, saw_restore = false, saw_coalesce = false, saw_basefree_added = false, saw_nonpersist = false;
   std::string ctrace;   // child-local trace tail
@@ -154,7 +161,7 @@ void do_raise(int si, int times, const char *who) {
     TRC("%s%sraise SIG%s (%s)", who, (who[0] && who[strlen(who) - 1] != ' ') ? ": " : "", SIGN[si], lib ? "an event is added" : "no event added");
     raise(SIGS[si]);
     if (lib) {
-      sg.D_batch++; w.lib_deliveries++;
+      sg.D_batch++; sg.after_disp++; w.lib_deliveries++;
       if (sg.D_batch >= 2) w.saw_coalesce = true;
       for (auto &e : w.e) if (e.ev && e.added && e.sig == si) {
         // calls still pending from the activation whose callback is running right now were caused by earlier deliveries
@@ -181,6 +188,7 @@ void do_del(int i, const char *who) {
   int r = event_del(m.ev);
   TRC("%sdel ev%d (SIG%s) -> %d", who, i, SIGN[m.sig], r);
   CK(r == 0, "C07/del-failed", "event_del(ev%d SIG%s) returned %d", i, SIGN[m.sig], r);
+  if (m.in_cb && m.act_remaining > 0) { m.cut = true; w.saw_cut = true; }
   m.act_remaining = 0;   // a delete cancels the calls still pending from the running activation
   model_del(i, "after event_del of the last event");
 }
@@ -193,6 +201,7 @@ void sig_cb(evutil_socket_t fd, short what, void *arg) {
   CK((int)fd == SIGS[m.sig], "C07/wrong-signal-number", "callback of ev%d (SIG%s = %d) got fd=%d", i, SIGN[m.sig], SIGS[m.sig], (int)fd);
   bool continuation = m.act_remaining > 0;
   if (!continuation) {
+    if (m.cut) { m.cut = false; w.saw_call_after_cut = true; }
     CK(m.added, "C07/callback-after-del", "callback of ev%d (SIG%s) ran although the event is not added (deleted earlier and not re-added) [%s, %s]",
        i, SIGN[m.sig], w.mech ? "signalfd" : "self-pipe", w.in_child ? "forked child" : "original process");
   }
@@ -204,13 +213,32 @@ void sig_cb(evutil_socket_t fd, short what, void *arg) {
   m.act_remaining = remaining;
   m.in_cb = true; w.cb_depth++;
   if (!continuation && !m.persist) { w.saw_nonpersist = true; model_del(i, "in the callback of a non-persistent event that was the last one"); }   // removed by the library before the first call
-  switch (m.act) {
+  int act = m.act;
+  if (m.nscript) {
+    long j = m.total_calls - 1;
+    act = j < m.nscript ? m.script[j] : (m.cyc ? m.script[j % m.nscript] : 0);
+    if (act != m.script[0]) w.saw_varying = true;
+    TRC("    scripted action of call %ld: %d", j + 1, act);
+  }
+  switch (act) {
     case 1: if (w.cb_raise_budget > 0) { w.cb_raise_budget--; w.saw_raise_in_cb = true; do_raise(m.sig, 1, "    in-cb "); } break;
     case 2: if (w.cb_raise_budget > 0) { w.cb_raise_budget--; w.saw_raise_in_cb = true; do_raise(m.arg % NSIG_, 1, "    in-cb "); } break;
     case 3: w.saw_del_in_cb = true; do_del(i, "    in-cb "); break;
     case 4: if (w.e[m.arg % NEV].ev && !w.e[m.arg % NEV].in_cb) { w.saw_del_in_cb = true; do_del(m.arg % NEV, "    in-cb "); } break;
     case 5: do_add(m.arg % NEV, "    in-cb "); break;
     case 6: w.saw_del_in_cb = true; do_del(i, "    in-cb "); do_add(i, "    in-cb "); break;
+    case 7: {   // event_base_loopbreak: the loop returns after this callback; the calls still pending from this activation are dropped
+      int r = event_base_loopbreak(w.base);
+      TRC("    in-cb loopbreak -> %d (%d calls of this activation pending)", r, m.act_remaining);
+      CK(r == 0, "C07/loopbreak-failed", "event_base_loopbreak returned %d inside the callback of ev%d", r, i);
+      w.broke = true; w.saw_break = true;
+      if (m.act_remaining > 0) {
+        // a delivery made earlier in this activation was promised a call beyond the pending ones: those are gone now, the extra call is still owed
+        if (m.need_calls > m.total_calls) { m.need_calls -= m.act_remaining; if (m.need_calls < m.total_calls) m.need_calls = m.total_calls; }
+        m.cut = true; w.saw_cut = true;
+      }
+      m.act_remaining = 0;
+      break; }
     default: break;
   }
   m.in_cb = false; w.cb_depth--;
@@ -219,32 +247,40 @@ void sig_cb(evutil_socket_t fd, short what, void *arg) {
 int64_t wait_hook(const struct sim_wait_info *wi, void *) {
   World &w = *W;
   if (wi->nready < 0) w.eintr = true;   // a zero-timeout poll/select may be interrupted by libFuzzer's SIGALRM: redo the turn
+  w.dispatched = true; for (auto &sg : w.sg) sg.after_disp = 0;   // everything delivered so far is visible to this poll
   if (wi->timeout_us < 0) event_base_loopbreak(w.base);
   return 0;
 }
 
-// one turn; quiescent = loop until a pass finds nothing active
+// one turn; quiescent = loop until a pass finds nothing active (resumed when a callback stopped it with loopbreak)
 void do_turn(bool quiescent) {
   World &w = *W;
   int flags = quiescent ? EVLOOP_NONBLOCK : (EVLOOP_ONCE | EVLOOP_NONBLOCK);
   int r;
-  for (int attempt = 0;; attempt++) {
-    w.eintr = false;
-    { sigset_t al, old; sigemptyset(&al); sigaddset(&al, SIGALRM); sigprocmask(SIG_BLOCK, &al, &old);   // libFuzzer's SIGALRM must not interrupt a zero-timeout poll/select
-      r = event_base_loop(w.base, flags);
-      if (!sigismember(&old, SIGALRM)) sigprocmask(SIG_UNBLOCK, &al, nullptr);   /* not SIG_SETMASK: signalfd add/del inside the loop changes the mask */ }
-    TRC("turn(%s) -> %d", quiescent ? "quiescent" : "one pass", r);
-    CK(r >= 0, "C07/loop-error", "event_base_loop returned %d", r);
-    if (!w.eintr || attempt >= 3) break;
+  for (int round = 0;; round++) {
+    for (int attempt = 0;; attempt++) {
+      w.eintr = false; w.broke = false; w.dispatched = false;
+      { sigset_t al, old; sigemptyset(&al); sigaddset(&al, SIGALRM); sigprocmask(SIG_BLOCK, &al, &old);   // libFuzzer's SIGALRM must not interrupt a zero-timeout poll/select
+        r = event_base_loop(w.base, flags);
+        if (!sigismember(&old, SIGALRM)) sigprocmask(SIG_UNBLOCK, &al, nullptr);   /* not SIG_SETMASK: signalfd add/del inside the loop changes the mask */ }
+      TRC("turn(%s) -> %d%s", quiescent ? "quiescent" : "one pass", r, w.broke ? " [stopped by loopbreak]" : "");
+      CK(r >= 0, "C07/loop-error", "event_base_loop returned %d", r);
+      if (!w.eintr || attempt >= 3) break;
+    }
+    if (quiescent && w.broke && !w.eintr && round < 40) continue;
+    break;
   }
-  if (quiescent && r == 0 && !w.eintr) {
-    // end of batch: everything delivered while an event stayed added must have produced a callback
+  // End of batch: the loop went idle by itself -- nothing active, and either a poll found nothing (0) or no event is left (1) --
+  // and it polled at least once.  Every delivery made before its last poll has been turned into callbacks or was cancelled by a
+  // delete / loopbreak; deliveries made after that poll (only possible when it returned 1) are still in flight and open the next batch.
+  if (quiescent && (r == 0 || r == 1) && !w.eintr && !w.broke && w.dispatched) {
+    if (r == 1) w.saw_idle_no_events = true;
     for (int i = 0; i < NEV; i++) { MEv &m = w.e[i]; if (!m.ev) continue;
       CK(!(m.added && m.need_calls > m.total_calls), "C07/delivery-lost",
          "ev%d (SIG%s) stayed added while its signal was delivered, the loop ran until idle, but the callback ran %ld times where at least %ld were due [%s, %s, %s]",
          i, SIGN[m.sig], m.total_calls, m.need_calls, w.mech ? "signalfd" : "self-pipe", event_base_get_method(w.base), w.in_child ? "forked child after event_reinit" : "original process");
       m.need_calls = 0; m.calls_batch = 0; }
-    for (auto &sg : w.sg) sg.D_batch = 0;
+    for (auto &sg : w.sg) sg.D_batch = sg.after_disp;
   }
 }
 
@@ -362,15 +398,24 @@ extern "C" int LLVMFuzzerTestOneInput(const uint8_t *data, size_t size) {
         bool was_added = false; (void)was_added;
         m.sig = si; m.persist = (cfgb & 3) != 0; m.heap = (cfgb & 4) != 0; m.prio = (cfgb >> 3) ? (int)s.below(w.nprio) : 0;
         m.act = act > 6 ? 0 : act; m.arg = arg; m.added = false; m.in_cb = false; m.act_remaining = 0; m.total_calls = 0; m.need_calls = 0; m.calls_batch = 0;
+        m.nscript = 0; m.cyc = false; m.cut = false;
+        if (act > 6) {   // per-call script of 2..4 actions (0 none, 1..6 as above, 7 loopbreak)
+          m.nscript = act - 5; m.cyc = s.flag();
+          for (int k = 0; k < m.nscript; k++) { m.script[k] = s.below(8); if (!m.persist && (m.script[k] == 3 || m.script[k] == 6)) m.script[k] = 0; }
+        }
         if (!m.persist && (m.act == 3 || m.act == 6)) m.act = 0;
         short what = EV_SIGNAL | (m.persist ? EV_PERSIST : 0);
         if (m.heap) { m.ev = event_new(w.base, SIGS[si], what, sig_cb, (void *)(intptr_t)i); if (!m.ev) fail_("harness/event-new", "NULL"); }
         else { memset(&m.store, 0, sizeof m.store); int r = event_assign(&m.store, w.base, SIGS[si], what, sig_cb, (void *)(intptr_t)i); if (r != 0) fail_("harness/event-assign", "%d", r); m.ev = &m.store; }
         if (w.nprio > 1) event_priority_set(m.ev, m.prio);
         TRC("new ev%d SIG%s persist=%d %s prio=%d cb_action=%d/%d", i, SIGN[si], m.persist, m.heap ? "event_new" : "event_assign", m.prio, m.act, m.arg);
+        if (m.nscript) TRC("  per-call script [%d,%d,%d,%d] length %d %s", m.script[0], m.script[1], m.script[2], m.script[3], m.nscript, m.cyc ? "cyclic" : "once");
         if (addnow) do_add(i, "");
         break; }
-      case 3: do_add(s.below(NEV), ""); break;
+      case 3: {   // add: the drawn slot, or the next slot (cyclically) holding an event that is not added right now
+        int i = s.below(NEV);
+        for (int k = 0; k < NEV; k++) { MEv &c = w.e[(i + k) % NEV]; if (c.ev && !c.added) { i = (i + k) % NEV; break; } }
+        do_add(i, ""); break; }
       case 4: case 5: do_del(s.below(NEV), ""); break;
       case 6: free_event(s.below(NEV), ""); break;
       case 7: case 8: case 9: { int si = s.below(NSIG_); int n = 1 + s.below(5); do_raise(si, n, ""); break; }
@@ -426,7 +471,9 @@ extern "C" int LLVMFuzzerTestOneInput(const uint8_t *data, size_t size) {
   if (w.saw_del_in_cb) verif_class("del_in_callback"); if (w.saw_restore) verif_class("restore_checked"); if (w.saw_coalesce) verif_class("several_deliveries_in_batch");
   if (w.saw_basefree_added) verif_class("base_free_with_added_events"); if (w.saw_nonpersist) verif_class("nonpersistent_fired"); if (w.callbacks) verif_class("callback_ran");
   if (w.nprio > 1) verif_class("several_priorities");
-  int nontrivial = (w.saw_partial || w.saw_raise_in_cb || w.forked) && w.lib_deliveries >= 1 && w.callbacks >= 1;
+  if (w.saw_varying) verif_class("callback_action_varied"); if (w.saw_break) verif_class("loopbreak_in_callback"); if (w.saw_cut) verif_class("activation_cut_short");
+  if (w.saw_call_after_cut) verif_class("called_again_after_cut_activation"); if (w.saw_idle_no_events) verif_class("batch_ended_with_no_event_left");
+  int nontrivial = (w.saw_partial || w.saw_raise_in_cb || w.forked || w.saw_cut) && w.lib_deliveries >= 1 && w.callbacks >= 1;
   if (nontrivial) verif_class(w.mech ? "nt_signalfd" : "nt_selfpipe");
   verif_case_end(nontrivial, s.h);
   W = nullptr;
